@@ -3,6 +3,7 @@ package sev
 import (
 	"crypto/sha512"
 	"encoding/binary"
+	"github.com/google/gce-tcb-verifier/ovmf"
 
 	"github.com/google/gce-tcb-verifier/ovmf/abi"
 	spb "github.com/google/gce-tcb-verifier/proto/sev"
@@ -311,9 +312,9 @@ func verifC04(nsec, vcpus int, product sgpb.SevProduct_SevProductName, bits uint
 	verifReach("end")
 }
 
-func VerifC04Milan1() { verifC04(3, 1, sgpb.SevProduct_SEV_PRODUCT_MILAN, 48) }
-func VerifC04Milan2() { verifC04(3, 2, sgpb.SevProduct_SEV_PRODUCT_MILAN, 48) }
-func VerifC04Genoa2() { verifC04(3, 2, sgpb.SevProduct_SEV_PRODUCT_GENOA, 52) }
+func VerifC04Milan1()     { verifC04(3, 1, sgpb.SevProduct_SEV_PRODUCT_MILAN, 48) }
+func VerifC04Milan2()     { verifC04(3, 2, sgpb.SevProduct_SEV_PRODUCT_MILAN, 48) }
+func VerifC04Genoa2()     { verifC04(3, 2, sgpb.SevProduct_SEV_PRODUCT_GENOA, 52) }
 func VerifC04Milan3Sec4() { verifC04(4, 3, sgpb.SevProduct_SEV_PRODUCT_MILAN, 48) }
 
 func VerifC04NoVcpus() {
@@ -322,5 +323,38 @@ func VerifC04NoVcpus() {
 	verifAssume(vcpus < 1, "a vCPU count below one")
 	_, err := LaunchDigest(&LaunchOptions{Vcpus: vcpus, Product: sgpb.SevProduct_SEV_PRODUCT_MILAN}, fw)
 	verifAssert(err != nil, "a vCPU count below one is refused")
+	verifReach("end")
+}
+
+// The application processors' VMSA: same reset state as the boot processor except that execution
+// starts at the SEV-ES reset block's address (rip = low 16 bits, cs.base = high 16 bits), for
+// every address — in particular those with a zero half. A cheap obligation next to the digest
+// ones (no hashing), so that a field-placement slip is caught even where the digest comparison is
+// slow to decide.
+func VerifC04ApVmsa() {
+	fw := verifSevImage(4096, 3)
+	data := &ovmf.SevData{SevEs: true, SevSnp: true}
+	if err := data.ExtractFromFirmware(fw); err != nil {
+		verifReach("rejected")
+		verifReach("end")
+		return
+	}
+	vmsas, err := prepareVmsas(&LaunchOptions{Vcpus: 3, Product: sgpb.SevProduct_SEV_PRODUCT_MILAN}, data)
+	if err != nil {
+		verifReach("rejected")
+		verifReach("end")
+		return
+	}
+	verifReach("accepted")
+	addr := verifResetAddr(fw)
+	verifAssert(len(vmsas) == 3, "one VMSA per vCPU")
+	bsp, ap := vmsas[0], vmsas[1]
+	verifAssert(bsp.Rip == 0xfff0 && bsp.Cs != nil && bsp.Cs.Base == 0xffff0000, "the boot processor starts at the reset vector")
+	verifAssert(ap.Rip == uint64(addr&0xffff) && ap.Cs != nil && ap.Cs.Base == uint64(addr&0xffff0000), "an application processor starts at the SEV-ES reset block's address")
+	verifAssert(vmsas[2].Rip == ap.Rip && vmsas[2].Cs.Base == ap.Cs.Base, "every application processor starts there")
+	// everything else is the boot processor's reset state
+	cp := proto.Clone(ap).(*spb.VmcbSaveArea)
+	cp.Rip, cp.Cs.Base = bsp.Rip, bsp.Cs.Base
+	verifAssert(proto.Equal(cp, bsp), "all other VMSA fields equal the boot processor's")
 	verifReach("end")
 }
